@@ -275,6 +275,75 @@ func checkC18(c *Check) {
 			"the cookie reader also accepts a cookie that is not named by the filter's own cookie name ("+why+"): another filter's session cookie is honoured")
 	}
 	discoveryCacheKeyRule(c, "C18.R3")
+	// each Redis-backed filter talks to the Redis its own URI names (database and credentials included): the client
+	// handed to the store constructor is redis.NewClient of options parsed from this filter's URI, created for this
+	// store — not a client looked up under a coarser key (host:port)
+	for _, df := range deepFuncs(pre, 2) {
+		if pkgPathOf(df) != pkgOIDC {
+			continue
+		}
+		for _, ci := range allCalls(df) {
+			callee := ci.Common().StaticCallee()
+			if callee == nil || callee.Name() != "NewRedisStore" {
+				continue
+			}
+			for i, p := range callee.Params {
+				if !strings.Contains(typeID(p.Type()), "redis") || i >= len(ci.Common().Args) {
+					continue
+				}
+				okClient, what := true, ""
+				for _, l := range LeavesInl(ci.Common().Args[i], leafOpts{noConcat: true}, 2, nil) {
+					l = resolveCell(stripConv(l))
+					nc, _, isC := asCall(l)
+					if !isC || !strings.HasSuffix(funcID(calleeOf(nc).Obj), "go-redis/v9.NewClient") {
+						okClient, what = false, descDepth(l, 3)
+						continue
+					}
+					fromURI := false
+					for d := range dataDeps(nc.Common().Args[0]) {
+						if pc, _, isP := asCall(d); isP && strings.HasSuffix(funcID(calleeOf(pc).Obj), "go-redis/v9.ParseURL") {
+							fromURI = true
+						}
+					}
+					if !fromURI {
+						okClient, what = false, "a client whose options do not come from redis.ParseURL"
+					}
+				}
+				c.Obl(okClient, "C18.R3", "redis-client-of-own-uri/"+nthCallKey(ci), P.Pos(ci.Pos()), "the store's client is redis.NewClient(ParseURL(the filter's server URI)) made for this store",
+					"the Redis client handed to the store can be "+what+": filters whose URIs differ in database or credentials share one client, and with it each other's sessions")
+			}
+		}
+	}
+	// a filter's merged configuration is built on a copy of the defaults: proto.Merge never writes into a shared
+	// configuration (the defaults, another filter's), or an earlier filter's overrides leak into later filters
+	nMerge := 0
+	for _, mf := range P.Funcs {
+		if strings.HasPrefix(pkgPathOf(mf), modPath+"/config/gen/") {
+			continue
+		}
+		for _, ci := range callsTo(mf, fProtoMerge) {
+			nMerge++
+			dst := ci.Common().Args[0]
+			fresh := true
+			what := ""
+			for _, l := range Leaves(dst, leafOpts{noConcat: true}) {
+				l = resolveCell(stripConv(l))
+				if ta, isTA := l.(*ssa.TypeAssert); isTA {
+					l = resolveCell(stripConv(ta.X))
+				}
+				if cl, _, isC := asCall(l); isC && isCallTo(cl, fProtoClone) {
+					continue
+				}
+				if _, isA := l.(*ssa.Alloc); isA {
+					continue
+				}
+				fresh, what = false, descDepth(l, 3)
+			}
+			c.Obl(fresh, "C18.R3", "merge-into-own-copy/"+nthCallKey(ci), P.Pos(ci.Pos()), "proto.Merge writes into proto.Clone(…) / a new message",
+				"proto.Merge writes into "+what+", a configuration that other filters share: one filter's overrides become another filter's settings")
+		}
+	}
+	c.Obl(nMerge >= 1, "C18.R3", "merge-sites", "-", fmt.Sprintf("%d proto.Merge call(s) in own code", nMerge), "no proto.Merge call found (anchor lost)")
 	// the handler that serves a check is built in that check from the matched filter's own configuration
 	if pc := processInvoke(P, R); c.Anchor("C18.R3", "Handler.Process invocation in Check", pc != nil) {
 		handlerBuiltPerCheck(c, "C18.R3", R.CheckEntry, pc)
@@ -603,6 +672,35 @@ func checkC19(c *Check) {
 		}
 		c.Obl(len(atoms) >= 2 && reg == nil, "C19.R4", "no-registration-for-foreign-namespace", P.Pos(load.Pos()), "a reference into another namespace never reaches the index registration",
 			"a reference whose namespace is non-empty and differs from the current one can still be registered in the index ("+posOf(P, reg)+"): it would be refused only under additional conditions")
+	}
+	// every accepted reference is registered: once the index key of a reference has been computed, no path to the
+	// next filter (or out of the loader) avoids the registration — a filter that is skipped ("already tracked", "looks
+	// identical") is never given the Secret's value, now or after a rotation
+	if nn := P.Func(pkgK8s, "secretNamespacedName"); nn != nil {
+		isReg := func(i ssa.Instruction) bool {
+			mu, ok := i.(*ssa.MapUpdate)
+			if !ok {
+				return false
+			}
+			_, f, okf := fieldLoad(resolveCell(stripConv(mu.Map)))
+			return okf && f != nil && f.Name() == "secrets"
+		}
+		for _, lf := range deepFuncs(load, 1) {
+			if pkgPathOf(lf) != pkgK8s {
+				continue
+			}
+			for _, ci := range callsToFn(lf, nn) {
+				head := loopHeadOf(ci.Block())
+				hit := reachAvoiding(ci, nil, func(i ssa.Instruction) bool {
+					if _, isR := i.(*ssa.Return); isR {
+						return true
+					}
+					return head != nil && i.Block() == head && i == head.Instrs[0]
+				}, isReg)
+				c.Obl(hit == nil, "C19.R4", "registration-not-skippable/"+nthCallKey(ci), P.Pos(ci.Pos()), "after the index key is computed every path registers the filter's configuration",
+					"a filter whose reference was accepted can be skipped without being registered in the index ("+posOf(P, hit)+"): its configuration never receives the Secret's value")
+			}
+		}
 	}
 	c.Obl(refuse, "C19.R4", "refusal", P.Pos(load.Pos()), "foreign namespace ⇒ ErrCrossNamespaceSecretRef", "a secret reference into another namespace is not refused with ErrCrossNamespaceSecretRef")
 	prop := false
